@@ -54,14 +54,15 @@ def _roundtrip(job):
             _prime(ft, job[3])
         src = _dump(fmt, doc)
         p1 = tf.write(src, suffix, binary=isinstance(src, bytes))
-        t1 = ft.build_tree(p1, graphtage.BuildOptions())
+        opt = job[4] if len(job) > 4 and job[4] else {}
+        t1 = ft.build_tree(p1, graphtage.BuildOptions(**opt))
         buf = gt._KeepOpen()
         pr = Printer(buf, ansi_color=False, quiet=True)
         ft.get_default_formatter().print(pr, t1)
         text = buf.getvalue()
         p2 = tf.write(text, suffix)
         try:
-            t2 = ft.build_tree(p2, graphtage.BuildOptions())
+            t2 = ft.build_tree(p2, graphtage.BuildOptions(**opt))
         except Exception as ex:
             fails.append({'what': f"{fmt}: printed text is rejected by the loader ({type(ex).__name__}: {str(ex)[:100]}); text {text[:120]!r}",
                           'class': f'c12-reparse-fails:{fmt}'})
@@ -81,8 +82,12 @@ def _tag(fails, job):
         primed = job[3] if len(job) > 3 else None
         if primed:
             f['what'] += f" [after a non-colour diff ending in a string {'insertion' if primed == 'ins' else 'removal'} was rendered by the same formatter]"
-        f['input'] = {'fmt': job[0], 'doc': repr(job[1])[:300], 'primed': primed}
-        f['replay'] = {'kind': 'roundtrip', 'fmt': job[0], 'doc': job[1] if job[0] != 'xml' else None, 'suffix': job[2], 'primed': primed}
+        opt = job[4] if len(job) > 4 and job[4] else None
+        if opt:
+            f['what'] += f" [trees built with options {opt}]"
+        f['input'] = {'fmt': job[0], 'doc': repr(job[1])[:300], 'primed': primed, 'opt': opt}
+        f['replay'] = {'kind': 'roundtrip', 'fmt': job[0], 'doc': job[1] if job[0] != 'xml' else None, 'suffix': job[2], 'primed': primed,
+                       'opt': opt}
     return fails
 
 
@@ -145,7 +150,7 @@ def witnesses(func_result, ob, repo_root, tier):
 def replay(entry, repo_root):
     r = entry.get('replay') or {}
     if r.get('kind') == 'roundtrip' and r.get('doc') is not None:
-        f = _roundtrip((r['fmt'], r['doc'], r['suffix'], r.get('primed')))
+        f = _roundtrip((r['fmt'], r['doc'], r['suffix'], r.get('primed'), r.get('opt')))
         return f[0]['what'] if f else None
     return None
 
@@ -170,7 +175,9 @@ def bounded(tier, seed, repo_root):
         jobs.append(('xml', _xml_doc(rnd), '.xml'))
     # the same round trips after the formatter singletons were used for a non-colour diff ending in an edited string
     primed = [j + (k,) for j in rnd.sample(jobs, min(len(jobs), n)) for k in ('ins', 'rem')]
-    jobs = jobs + primed
+    # ... and with the trees built under every non-default combination of the build options (the CLI's -k / -l / ... flags)
+    optd = [j + (None, o) for j in rnd.sample(jobs, min(len(jobs), n)) for o in gt.OPTION_COMBOS[1:]]
+    jobs = jobs + primed + optd
     fails = [f for fs in pmap(_roundtrip, jobs, repo_root, chunksize=4, job_timeout=60, on_timeout=timeout_failure('C12')) for f in fs]
     # complete check of the per-character escape function
     if tier == 'quick':
@@ -189,7 +196,7 @@ def bounded(tier, seed, repo_root):
         f"non-BMP characters, extreme numbers, empty containers, depth 5; YAML/plist/XML alphanumeric; CSV hard cells); escape() over "
         f"{ncp} code points ({'all' if tier != 'quick' else 'whole BMP + samples'})",
         'evaluations': len(jobs) + ncp, 'distinct_nontrivial': len({(j[0], repr(j[1])) for j in jobs}), 'exhaustive': tier != 'quick',
-        'rule': 'document -> Filetype.build_tree -> default formatter on Printer(ansi_color=False) -> build_tree: equal document; '
+        'rule': 'document -> Filetype.build_tree (default and every non-default option combination) -> default formatter on Printer(ansi_color=False) -> build_tree: equal document; '
                 'code point -> json.loads of the quoted escape equals the character',
         'failures': fails, 'samples': [{'fmt': j[0], 'doc': repr(j[1])[:80]} for j in jobs[:3]],
     }]
